@@ -17,7 +17,11 @@ func c17HexBytesE1(c *Ctx) {
 	const rule = "R7.hexbytes"
 	r.Rule(rule, "backend.HEXBytes (E1, 0..20 symbolic bytes): UnmarshalText(MarshalText(v)) = v with and without 0x, String() = MarshalText, odd-length texts rejected, no panic")
 	const rel = "backend"
-	for n := 0; n <= 20; n++ {
+	maxN := 20
+	if c.Tier == "thorough" {
+		maxN = 64
+	}
+	for n := 0; n <= maxN; n++ {
 		in := absint.NewInterp(c.Prog)
 		NT := in.NamedType(rel, "HEXBytes")
 		if NT == nil {
